@@ -37,7 +37,7 @@ REQUIRED = [
     ("liquid/utils/chain_map.py", "ReadOnlyChainMap.__getitem__"),
 ]
 
-MIN_COUNTERS = {"programs_with_overridden_blocks": 100, "macro_calls_judged": 100, "builtin_now_probes": 20, "templates_from_a_caching_loader_with_history": 100}
+MIN_COUNTERS = {"programs_with_an_abandoned_node_in_a_tolerant_environment": 200, "programs_with_overridden_blocks": 100, "macro_calls_judged": 100, "builtin_now_probes": 20, "templates_from_a_caching_loader_with_history": 100}
 NAMES = ["a", "b", "c", "now"]
 
 # ------------------------------------------------------------------ program -> source
@@ -76,6 +76,8 @@ def src_of(ops: list, partials: dict[str, str]) -> str:
             out.append(f"{{% {k} {op[1]} %}}")
         elif k == "if":
             out.append("{% if true %}" + src_of(op[1], partials) + "{% endif %}")
+        elif k == "fail":
+            out.append({"filter": "{{ 1 | divided_by: 0 }}", "include": "{% include 'no-such-partial' %}", "strict": "{{ xs | sort: 1, 2, 3 }}"}[op[1]])
         elif k == "oblock":
             out.append("{% block " + op[1] + " %}BASE-DEFAULT{% endblock %}")
             partials.setdefault("__child_blocks", "")
@@ -101,6 +103,14 @@ class _Now:
 
 
 NOW = _Now()
+
+
+class ModelFail(Exception):
+    """A render error inside a tolerant environment: whatever the enclosing top-level node wrote so far stays, the rest of it is skipped."""
+
+    def __init__(self, partial: str = ""):
+        super().__init__(partial)
+        self.partial = partial
 
 
 class RScope:
@@ -129,10 +139,31 @@ class RScope:
             return self.counters[name]
         return ""
 
-    def run(self, ops: list) -> str:
+    def run_top(self, ops: list) -> str:
+        """A template's (or an included partial's) top-level nodes: in a tolerant environment an error ends the node it happened in, and the next one
+        runs with every block scope of the abandoned node gone."""
         out = []
         for op in ops:
+            depth = len(self.stack)
+            try:
+                out.append(self.run([op]))
+            except ModelFail as f:
+                out.append(f.partial)
+                del self.stack[depth:]
+        return "".join(out)
+
+    def run(self, ops: list) -> str:
+        out: list[str] = []
+        try:
+            return self._run(ops, out)
+        except ModelFail as f:
+            raise ModelFail("".join(out) + f.partial) from None
+
+    def _run(self, ops: list, out: list) -> str:
+        for op in ops:
             k = op[0]
+            if k == "fail":
+                raise ModelFail("")
             if k == "probe":
                 out.append(f"[{op[1]}={fmt(self.lookup(op[1]))}]")
             elif k == "assign":
@@ -143,22 +174,30 @@ class RScope:
                 items = ITERS[op[2]]
                 for it in items:
                     self.stack.append({op[1]: it, "forloop": "<forloop>"})
-                    out.append(self.run(op[3]))
-                    self.stack.pop()
+                    try:
+                        out.append(self.run(op[3]))
+                    finally:
+                        self.stack.pop()
             elif k == "tablerow":
                 items = ITERS[op[2]]
                 out.append('<tr class="row1">\n')
                 n = len(items)
                 for i, it in enumerate(items):
                     self.stack.append({op[1]: it, "tablerowloop": "<tablerowloop>"})
-                    out.append(f'<td class="col{i + 1}">' + self.run(op[3]) + "</td>")
-                    self.stack.pop()
+                    out.append(f'<td class="col{i + 1}">')
+                    try:
+                        out.append(self.run(op[3]))
+                    finally:
+                        self.stack.pop()
+                    out.append("</td>")
                 out.append("</tr>\n")
             elif k == "with":
                 # every argument is evaluated in the enclosing scope; none of them sees a name bound by the same tag
                 self.stack.append({n: (self.lookup(v[1:]) if v.startswith("@") else v) for n, v in op[1].items()})
-                out.append(self.run(op[2]))
-                self.stack.pop()
+                try:
+                    out.append(self.run(op[2]))
+                finally:
+                    self.stack.pop()
             elif k == "include":
                 ns: dict[str, Any] = {n: (self.lookup(v[1:]) if v.startswith("@") else v) for n, v in (op[3] or {}).items()}
                 # keyword arguments are evaluated before the bound variable is looked up; both live in one pushed namespace
@@ -167,8 +206,10 @@ class RScope:
                     var, alias = op[2]
                     ns[alias or op[1]] = self.lookup(var)
                 ns["partial"] = True
-                out.append(self.run(op[4]))
-                self.stack.pop()
+                try:
+                    out.append(self.run_top(op[4]))  # a partial's own top-level nodes are where its errors stop
+                finally:
+                    self.stack.pop()
             elif k == "increment":
                 v = self.counters.get(op[1], 0)
                 self.counters[op[1]] = v + 1
@@ -346,7 +387,7 @@ def judge(ctx: core.Ctx, case: dict[str, Any]) -> None:
             o = drv.call_async(env.get_template_async, "main", **kw) if case.get("async") else drv.call(env.get_template, "main", **kw)
             ctx.count("templates_from_a_caching_loader_with_history")
         else:
-            env = drv.make_env({"globals": eg, "extra": True}, loader=DictLoader(partials))
+            env = drv.make_env({"globals": eg, "extra": True, **({"mode": case["tolerant"]} if case.get("tolerant") else {})}, loader=DictLoader(partials))
             o = drv.call(env.from_string, src, globals=Rec(case["tglobals"], "template_globals", log), matter=Rec(case["matter"], "matter", log))
         args = dict(case["args"])
         args.setdefault("xs", ["X1", "X2"])
@@ -355,7 +396,9 @@ def judge(ctx: core.Ctx, case: dict[str, Any]) -> None:
         if '"macrocall"' in json.dumps(case["ops"]):
             ctx.count("macro_calls_judged")
         m = RScope(case["args"], case["matter"], case["tglobals"], case["eglobals"])
-        exp = m.run(case["ops"])
+        exp = m.run_top(case["ops"]) if case.get("tolerant") else m.run(case["ops"])
+        if case.get("tolerant"):
+            ctx.count("programs_with_an_abandoned_node_in_a_tolerant_environment")
         for k2, v2 in log.items():
             ctx.count(f"answered_by:{k2}", v2)
         if m.unspec:
@@ -529,8 +572,65 @@ def enum_paths(ctx: core.Ctx):
                         yield {"kind": "path", "segs": [root, s1] + tail, "data": V.enc(PATH_DATA), "flags": flags, "async": is_async}
 
 
+def inject_fail(rng, ops: list, kinds=("filter", "include", "strict")) -> bool:
+    """Put one failing statement somewhere inside a block of the program (not in a macro body, whose call is judged separately)."""
+    spots = []
+
+    def walk(o):
+        for op in o:
+            body = {"for": 3, "tablerow": 3, "with": 2, "include": 4, "if": 1}.get(op[0])
+            if body is not None:
+                spots.append(op[body])
+                walk(op[body])
+
+    walk(ops)
+    if not spots:
+        return False
+    b = rng.choice(spots)
+    b.insert(rng.randrange(len(b) + 1), ["fail", rng.choice(kinds)])
+    return True
+
+
+def abandoned_blocks():
+    """Every binder abandoned by an error in a tolerant environment, alone and nested, followed by reads, writes and a new loop over the
+    same name: block-scoped names vanish after their block however the block ended."""
+    tail = [["probe", "a"], ["probe", "b"], ["probe", "forloop"], ["assign", "a", "L7"], ["probe", "a"], ["capture", "b", "C7"], ["probe", "b"], ["for", "a", "(1..1)", [["probe", "a"]]], ["probe", "a"]]
+    f = ["fail", "filter"]
+    binders = {
+        "for": lambda body: ["for", "a", "xs", body],
+        "tablerow": lambda body: ["tablerow", "a", "xs", body],
+        "with": lambda body: ["with", {"a": "W1", "b": "@c"}, body],
+        "include": lambda body: ["include", "p1", ["c", "a"], {"b": "K1"}, body],
+        "if": lambda body: ["if", body],
+    }
+    for fk in ("filter", "include", "strict"):
+        f = ["fail", fk]
+        for n1, b1 in binders.items():
+            for pre in ([], [["assign", "a", "L1"]]):
+                for where in ("first", "last"):
+                    body = [f, ["probe", "a"]] if where == "first" else [["probe", "a"], f]
+                    yield pre + [b1(body)] + tail
+            for n2, b2 in binders.items():
+                if n2 == "include" and n1 == "include":
+                    continue
+                # the error happens in the inner block; the inner and the outer block are both abandoned (an included partial stops it)
+                yield [b1([["probe", "a"], b2([["probe", "b"], f]), ["probe", "a"]])] + tail
+
+
 def cases(ctx: core.Ctx):
     rng = ctx.rng("cases")
     yield from enum_paths(ctx)
+    layers = {"args": {"a": "ARG_a", "c": "ARG_c"}, "matter": {"b": "MAT_b"}, "tglobals": {"a": "TG_a", "forloop": "TG_forloop"}, "eglobals": {"b": "EG_b"}}
+    for gi, ops in enumerate(abandoned_blocks()):
+        if gi % ctx.nshards != ctx.shard:
+            continue
+        for mode in ("lax", "warn"):
+            yield {"kind": "scope", "ops": ops, **(layers if gi % 2 else {k: {} for k in layers}), "async": gi % 5 == 0, "tolerant": mode}
     for i in range(ctx.budget(14000, 600_000)):
         yield gen_scope(rng) if i % 2 else gen_path(rng)
+    for i in range(ctx.budget(1500, 100_000)):
+        c = gen_scope(rng)
+        if c.get("loader_history") or '"macrocall"' in json.dumps(c["ops"]) or not inject_fail(rng, c["ops"]):
+            continue
+        c["tolerant"] = rng.choice(["lax", "warn"])
+        yield c
